@@ -131,3 +131,12 @@ Definition fc_all_ok (tbl : list (string * list (string * string * string * bool
   forallb (fc_set_ok tbl golden) sets &&
   forallb (fun g : string * list fc_entry => existsb (String.eqb (fst g)) (map fst sets)) golden &&
   fc_union_ok sets.
+
+(* ---- config.BoolFuncFlag (the frps flag dashboard_tls_mode) ----
+   Set(s):  f.v = strconv.FormatBool(f.v) == "true";  if !f.v { FalseFunc?() ; return nil };  TrueFunc?()
+   The argument s is never consulted: the new value is the old value.  Returns (new v, TrueFunc ran). *)
+Definition bff_set (v : bool) (s : bytes) : bool * bool :=
+  let v' := if v then true else false in   (* FormatBool(v) == "true" *)
+  (v', v').
+(* a freshly registered flag (v = false) receiving the argument s: does webServer.tls get set? *)
+Definition bff_enables_tls (s : bytes) : bool := snd (bff_set false s).
